@@ -761,4 +761,36 @@ _add_rt2("C16", "the MECHANISM of N7 as a small event-queue model (AsyncCancel.l
                 "cancel_before_first_step_loses_end_hook (the reproduced schedule), every_started_field_ends_refuted.",
          "AsyncCancel.lean abstracts asyncio (Task.cancel / gather / shield semantics are TRUSTED as described in its header, not extracted); it is tied to "
          "the code only through the verdicts of the probe abort-nested-coroutines with and without the patch, not by a trace correspondence.")
+_add_rt2("C08", "AUDIT ROUND 2: the counter of gather_futures AS SHIPPED (fix 6013951: `with lock: done += 1; count = done`, last-one test on the local "
+                "copy) is its own machine (RuntimeRaceShipped.lean) - gather_shipped_sets_outer_once (every n > 0, EVERY interleaving of the COUNT / TEST "
+                "steps: set exactly once, no InvalidStateError, no update lost) - and WHICH variant the tree has is re-extracted on every run "
+                "(Generated/GatherLock.lean, gather_shipped_variant: the Props build breaks when the lock or the local copy disappears; mutation trial: "
+                "caught, plus the lost-update probe). pending_only_if_schedule_exhausted (a run is `pending` only when every schedule entry was used for "
+                "one completion and tasks are still outstanding), blocking_runtime_never_pending (all resolvers synchronous = generic executor on "
+                "BlockingRuntime: outcome without any completion), asyncio_gather_delivers_what_gather_futures_delivers (for the same per-entry results "
+                "asyncio's index patching and gather_futures' slot collection deliver the same list).",
+         "STATED GAPS (audit round 2): (1) NO executor-level theorem is about the asyncio runtime: async_eq_blocking / always_terminates / serial_order are about "
+         "`runAsync` over the callback algebra of the thread pool; there is no `runAsyncio` interpreter (lazy coroutines, `async def` combinators, cancellation "
+         "of siblings) - asyncio is tied by the controlled-schedule correspondence and the pairwise equality oracle only, plus the one combinator-level lemma "
+         "above. (2) The gather_nonatomic_* / gather_terminates_nonatomic_refuted(_every_n) theorems are about the PRE-FIX counter and are counted as obligations "
+         "although they document a repaired defect. (3) Every executor-level theorem treats a completion and its callbacks as ONE step: justified for "
+         "gather's counter by the lock (theorem above), an assumption for the other callback bodies beyond one worker; the locked-counter theorem is not "
+         "lifted into the executor tree. (4) always_terminates is deadlock-freedom; no theorem bounds the number of tasks an operation submits (the harness "
+         "runs every schedule to the end; `pending` is a failing case there).")
+_add_rt2("C16", "AUDIT ROUND 2: field_events_inside_execution (for every request that reaches the executor the trace is stage events ++ [execution+] ++ "
+                "executor run ++ [execution-] ++ [query-], the executor run has no stage event: every field / middleware / resolver event lies inside the "
+                "execution stage, every executor, runtime and schedule of the model); named probe middleware-deferred.",
+         "Known finding N8 (c16:middleware-exits-before-deferred-resolver:threadpool): apply_middlewares wraps runtime.wrap_callable(resolver), so on a runtime "
+         "that off-loads resolvers every middleware has EXITED before the resolver runs (real trace mw>1 mw>0 mw<0 mw<1 ... call ret); entries, counts and order "
+         "are proved for every schedule (field_hooks_once / field_hooks_ordered, whose `order` omits the exits), the NESTING around the resolver's execution "
+         "only for synchronous resolvers (field_hooks_contiguous_sequential): documented latitude, not fixed. stages_nested is over stage events of the "
+         "post-N1 pipeline; OutKind has no unexpected-exception / request-abort outcome (real code: findings N3, N4, N7).")
+_add_rt2("C17", None,
+         "AUDIT ROUND 2 (stated in the doc comments of the theorems): kth_result_is_exec_of_kth_event / faults_do_not_leak / accepted_stream compare the stream "
+         "with the SAME model function run on a fresh executor (`clear_forgets` is rfl; an Event is already the outcome tree over Subscribe.lean's own "
+         "synchronous mini-executor): their content is exactly `the error list is reset before each event` (necessary: "
+         "errors_not_isolated_without_clear_errors); that the k-th result is an execution on the C04/C08 executor models is checked by the direct oracle on "
+         "the real code only. refusals / refused_before_variables / refusals_uncomputable are case splits over the if-chain: they pin the exception class "
+         "and the order of the checks; `no event consumed, resolver not called` are constants of the refused branches (no step relation) and are checked on "
+         "the real code (instrumented source) only.")
 
